@@ -110,3 +110,17 @@ register(
     components={"real": REAL, "stub": "none", "harness": HARNESS + "; adversarial subclasses generated per run"},
     chunk=100,
 )
+register(
+    "C20",
+    "sym",
+    quick=40000,
+    thorough=1000000,
+    level="exploration",
+    title="a symlink node has its own tree position and forwards the rest to its target",
+    rule=STRUCT_RULE
+    + " Histories additionally interleave attribute writes/deletes through links and targets; after every step every "
+    "attribute name is read on every node (probes.attr_reads) and compared with the attribute-store model; signatures of "
+    "attribute ops = (op, class of the node written through, name, forest shape with the node marked).",
+    assumptions=ASSUME_STRUCT + ["attribute names are data attributes (not parent/children/target, not dunder, not attributes of the link's class)"],
+    components={"real": REAL, "stub": "none", "harness": HARNESS},
+)
